@@ -326,6 +326,69 @@ def r_gram_exh(ck: Checker) -> None:
 
 
 
+def r_var_order(ck: Checker) -> None:
+    """`@field=<value> -> name`: the capture exists only after <value> matched, so a `$name` inside <value> is a variable used before
+    its capture and must be rejected.  The interpreter rejects a variable that is not yet in the registered captures; hence the capture
+    attached to a compiled value must be registered *after* that value was compiled (self.visit) on every path."""
+    from ..dtree import decision_tree
+    f = ck.repo.func(PAT, "PatternDefInterpreter.field_spec")
+    reg = ck.repo.func(PAT, "PatternDefInterpreter._check_unique_and_get_capture")
+    adds = [c for c in walk_body(reg.node.body) if isinstance(c, ast.Call) and isinstance(c.func, ast.Attribute) and c.func.attr == "add"]
+    if not adds:
+        raise Unsupported("_check_unique_and_get_capture does not register the name with .add()", reg.node)
+    regname = "_check_unique_and_get_capture"
+
+    def pos(n: ast.AST) -> tuple[int, int]:
+        return (getattr(n, "lineno", 0), getattr(n, "col_offset", 0))
+
+    def events(stmts: list[ast.stmt], value: ast.expr | None) -> list[tuple[str, ast.Call, str | None]]:
+        ev: list[tuple[str, ast.Call, str | None]] = []
+        seq: list[ast.AST] = list(stmts) + ([ast.Expr(value=value)] if value is not None else [])
+        for st in seq:
+            tgt = st.targets[0].id if isinstance(st, ast.Assign) and len(st.targets) == 1 and isinstance(st.targets[0], ast.Name) else None
+            calls = sorted((c for c in ast.walk(st) if isinstance(c, ast.Call) and isinstance(c.func, ast.Attribute) and norm(c.func.value) == "self"
+                            and c.func.attr in ("visit", regname, "value", "tree", "sequence")), key=pos)
+            for c in calls:
+                kind = "register" if c.func.attr == regname else "compile"
+                ev.append((kind, c, tgt if isinstance(st, ast.Assign) and st.value is c else None))
+        return ev
+
+    leaves = decision_tree(f.node.body, domain=lambda k: (1, 2, 3) if k.startswith("len(") else (True, False))
+    what = "field_spec: a capture attached to a compiled value is registered after the value was compiled (a `$name` inside the value it names is rejected)"
+    bad = None
+    n_named = 0
+    for lf in leaves:
+        if lf.outcome != "return" or lf.value is None:
+            continue
+        ev = events(lf.stmts, lf.value)
+        comp = [i for i, e in enumerate(ev) if e[0] == "compile"]
+        if not comp:
+            continue
+        # names attached to the result: keyword name=<N> in the returned construction, N bound by a registration
+        rv = lf.value
+        names = [k.value for c in ast.walk(rv) if isinstance(c, ast.Call) for k in c.keywords if k.arg == "name"]
+        for nm in names:
+            if isinstance(nm, ast.Call):
+                idx = [i for i, e in enumerate(ev) if e[1] is nm]
+            elif isinstance(nm, ast.Name):
+                idx = [i for i, e in enumerate(ev) if e[0] == "register" and e[2] == nm.id]
+                idx = idx[-1:]
+            else:
+                raise Unsupported(f"field_spec: capture name given as {norm(nm)[:40]}", nm)
+            if not idx:
+                raise Unsupported(f"field_spec: binding of the capture name {norm(nm)[:40]} not found on its path", rv)
+            n_named += 1
+            if idx[0] < comp[-1]:
+                bad = (f"field_spec: on the path [{', '.join(f'{k}={v}' for k, v in lf.assign.items())}] the capture {norm(nm)} is registered (line {ev[idx[0]][1].lineno}) "
+                       f"before the value it follows is compiled (line {ev[comp[-1]][1].lineno}): `@f=$x -> x` is accepted although x is used before its capture")
+    if bad:
+        ck.violation("R-VAR-ORDER", f, f.node, what, evaluations=len(leaves), construct=bad)
+    elif n_named == 0:
+        raise Unsupported("field_spec: no path attaches a capture to a compiled value", f.node)
+    else:
+        ck.holds("R-VAR-ORDER", f, f.node, what, evaluations=len(leaves), named_paths=n_named)
+
+
 def mutable_globals(ck: Checker) -> dict[str, set[str]]:
     out: dict[str, set[str]] = {}
     for m in ck.repo.mods.values():
@@ -401,6 +464,7 @@ def run(ck: Checker) -> None:
     ck.guard("R-EXC-ESCAPE", lambda: r_exc_escape(ck, ENTRIES))
     ck.guard("R-ENTRY-SIBLING", lambda: r_entry_sibling(ck))
     ck.guard("R-GRAM-EXH", lambda: r_gram_exh(ck))
+    ck.guard("R-VAR-ORDER", lambda: r_var_order(ck))
     ck.guard("R-POSTINIT-IDEMP", lambda: r_postinit_idemp(ck))
     from .c07 import r_xp_elements
     ck.guard("R-XP-ELEMENTS", lambda: r_xp_elements(ck))
